@@ -2,7 +2,7 @@
    consumers of a loaded module; everything else by sanitizer exploration). *)
 From Coq Require Import ZArith List Lia Bool.
 Import ListNotations.
-From LX Require Import Base.ListAux Generated.Consts Model.ModuleWf Model.Gate Proofs.GateProofs Model.Bounds Proofs.BoundsProofs.
+From LX Require Import Base.ListAux Generated.Consts Model.ModuleWf Model.Gate Proofs.GateProofs Model.Bounds Proofs.BoundsProofs Model.Envelope Proofs.EnvelopeProofs.
 Local Open Scope Z_scope.
 
 (* Whatever a loader produced from whatever bytes: if the module passed the gate with the loaders' post-condition and has
@@ -45,4 +45,56 @@ Example c01_nonvacuous :
                    d_xxo := [1; 0]; d_chans := [(64, 0); (64, 255)];
                    d_pats := [Some {| p_rows := 64; p_index := [0; 1] |}; Some {| p_rows := 1; p_index := [2; 7] |}];
                    d_trks := [Some 64; Some 64; Some 1]; d_inss := []; d_smps := []; d_seqs := [(0, 1000)] |} = false.
+Proof. vm_compute. repeat split; reflexivity. Qed.
+
+
+(* ---------------------------------------------------------------- envelope evaluation (player.c) ------------------------- *)
+(* player.c's get_envelope / update_envelope* read env->data[] (XMP_MAX_ENV_POINTS * 2 = 64 shorts) at indices computed from the
+   point count, the loop and sustain points and the position.  The model (Model/Envelope.v, compared with the C functions on
+   random envelopes by checks/C01.py) makes every such read a checked access; these theorems say that no access can fail when
+   the envelope satisfies env_okb, for every position x, default value, release and key-off state and every update variant
+   (generic, FT2, IT) - and env_okb is what public_wfb gives for every envelope of every instrument of a gated module. *)
+Theorem envelope_value_access_in_bounds : forall e data x def,
+  env_okb e = true -> length data = 64%nat -> exists v, get_envelope e data x def = Some v.
+Proof. exact get_envelope_in_bounds. Qed.
+Print Assumptions envelope_value_access_in_bounds.
+
+Theorem envelope_update_access_in_bounds : forall mode e data x rel ko,
+  env_okb e = true -> length data = 64%nat -> exists v, update_envelope mode e data x rel ko = Some v.
+Proof. exact update_envelope_in_bounds. Qed.
+Print Assumptions envelope_update_access_in_bounds.
+
+(* the interpolated value stays between the smallest and the largest node value (so volume / pan envelopes whose nodes the
+   loaders clamp stay in range) *)
+Theorem envelope_value_within_nodes : forall e data x def lo hi,
+  env_okb e = true -> length data = 64%nat -> has (e_flg e) C_XMP_ENVELOPE_ON = true -> 0 <= x ->
+  (forall k, 0 <= k < e_npt e -> lo <= nth (Z.to_nat (2 * k + 1)) data 0 <= hi) ->
+  forall v, get_envelope e data x def = Some v -> lo <= v <= hi.
+Proof. exact get_envelope_value_range. Qed.
+Print Assumptions envelope_value_within_nodes.
+
+Definition env_safe (e : env) (data : list Z) (x def : Z) (mode : emode) (rel ko : bool) : Prop :=
+  (exists v, get_envelope e data x def = Some v) /\ (exists v, update_envelope mode e data x rel ko = Some v).
+
+Theorem gated_module_envelopes_are_safe : forall m i data x def mode rel ko,
+  public_wfb m = true -> In i (d_inss m) -> length data = 64%nat ->
+  env_safe (i_aei i) data x def mode rel ko /\ env_safe (i_pei i) data x def mode rel ko /\ env_safe (i_fei i) data x def mode rel ko.
+Proof.
+  intros m i data x def mode rel ko W I L.
+  assert (K : instr_okb i = true).
+  { unfold public_wfb in W. repeat (apply andb_prop in W; destruct W as [W ?]).
+    repeat match goal with H : forallb instr_okb _ = true |- _ => rewrite forallb_forall in H; exact (H i I) end. }
+  unfold instr_okb in K. repeat (apply andb_prop in K; destruct K as [K ?]).
+  unfold env_safe. repeat split; first [apply get_envelope_in_bounds | apply update_envelope_in_bounds]; assumption.
+Qed.
+Print Assumptions gated_module_envelopes_are_safe.
+
+(* non-vacuity: a looping, sustaining 4-point envelope is accepted, evaluates between its nodes, and an envelope whose loop end
+   lies beyond the points is rejected by the predicate - and does read outside the 64 entries in the model *)
+Example c01_envelope_nonvacuous :
+  let e := {| e_flg := 7; e_npt := 4; e_sus := 1; e_sue := 2; e_lps := 0; e_lpe := 3 |} in
+  let data := [0; 0; 10; 64; 20; 32; 40; 0] ++ repeat 0 56 in
+  env_okb e = true /\ get_envelope e data 15 0 = Some 48 /\
+  env_okb {| e_flg := 5; e_npt := 4; e_sus := 0; e_sue := 0; e_lps := 0; e_lpe := 40 |} = false /\
+  update_envelope EGeneric {| e_flg := 5; e_npt := 4; e_sus := 0; e_sue := 0; e_lps := 0; e_lpe := 40 |} data 5 false false = None.
 Proof. vm_compute. repeat split; reflexivity. Qed.
